@@ -101,36 +101,81 @@ type checkRun struct {
 // extraCheck: engines other than the VC generator contribute obligations through this hook.
 type extraCheck func(w *World, run *checkRun)
 
-// gather generates the obligations of property p.
-func gather(w *World, p string) *checkRun {
-	run := &checkRun{prop: p, trusted: map[string]bool{}}
+// hasLayer: some clause of some contract is tagged with p (contract layer).
+func (w *World) hasLayer(p string) bool {
 	for _, c := range w.ContractList {
-		if !contractServes(c, p) {
-			continue
-		}
-		if c.Fn == nil {
-			continue // interface contracts are justified by subtype obligations
-		}
-		fr := w.verifyFunction(c)
-		run.results = append(run.results, fr)
-		if !c.Raw.Trusted {
-			run.funcs = append(run.funcs, fr.Fn)
-		}
-		if fr.Outside != "" {
-			run.outside = append(run.outside, fr.Fn+": "+fr.Outside)
-		}
-		for _, t := range fr.Trusted {
-			run.trusted[t] = true
-		}
-		if c.Raw.Trusted {
-			run.trusted["assumed contract on repository function "+fr.Fn] = true
-		}
-		for _, o := range fr.Obls {
-			if hasProp(o.Props, p) {
-				run.items = append(run.items, workItem{fr, o})
+		for _, cl := range c.Raw.Clauses {
+			if hasProp(cl.Props, p) {
+				return true
 			}
 		}
 	}
+	return false
+}
+
+// gather generates the obligations of property p.
+// Base pass: every function whose contract serves p is verified against the
+// untagged clauses (the base contract) and the obligations tagged p are kept.
+// Layer pass (only if some clause is tagged {p}): the same functions are
+// verified again with the clauses tagged p added to all contracts; from this
+// pass only the obligations that stem from tagged clauses, and frame
+// obligations that do not exist in the base pass, are kept.
+func gather(w *World, p string) *checkRun {
+	run := &checkRun{prop: p, trusted: map[string]bool{}}
+	passes := []string{""}
+	if w.hasLayer(p) {
+		passes = append(passes, p)
+		run.notes = append(run.notes, "contract layer "+p+": clauses tagged {"+p+"} are verified in a second pass on top of the base contracts; base obligations are discharged without them")
+	}
+	baseNames := map[string]bool{}
+	for _, layer := range passes {
+		w.layer = layer
+		for _, c := range w.ContractList {
+			if !contractServes(c, p) {
+				continue
+			}
+			if c.Fn == nil {
+				continue // interface contracts are justified by subtype obligations
+			}
+			fr := w.verifyFunction(c)
+			run.results = append(run.results, fr)
+			if layer == "" {
+				if !c.Raw.Trusted {
+					run.funcs = append(run.funcs, fr.Fn)
+				}
+			}
+			if fr.Outside != "" {
+				msg := fr.Fn + ": " + fr.Outside
+				dup := false
+				for _, o := range run.outside {
+					dup = dup || o == msg
+				}
+				if !dup {
+					run.outside = append(run.outside, msg)
+				}
+			}
+			for _, t := range fr.Trusted {
+				run.trusted[t] = true
+			}
+			if c.Raw.Trusted {
+				run.trusted["assumed contract on repository function "+fr.Fn] = true
+			}
+			for _, o := range fr.Obls {
+				isFrame := o.Kind == "frame" || o.Kind == "loop-frame"
+				if layer == "" {
+					baseNames[o.Name] = true
+					if hasProp(o.Props, p) && !hasProp(o.Props, layerMark) {
+						run.items = append(run.items, workItem{fr, o})
+					}
+					continue
+				}
+				if hasProp(o.Props, p) && hasProp(o.Props, layerMark) || isFrame && !baseNames[o.Name] {
+					run.items = append(run.items, workItem{fr, o})
+				}
+			}
+		}
+	}
+	w.layer = ""
 	for _, l := range w.Lemmas {
 		if !hasProp(l.Raw.Props, p) {
 			continue
